@@ -2,10 +2,13 @@ import Holpy.Common.Sexp
 import Holpy.C10.Model
 import Holpy.C10.PolyModel
 import Holpy.C10.IntModel
+import Holpy.C10.HypModel
 /-
 Line protocol of the C10 model (one s-expression in, one out):
   (acnorm TREE)            -> TREE                       conj_norm / disj_norm on member ids
   (conv FUEL CE TERM)      -> (ok LHS RHS) | (err KIND)  conversion combinators
+  (convh FUEL CEH TERM)    -> (ok (HYP ...) LHS RHS) | (err KIND)   the same with hypotheses (HypModel.lean);
+                              CEH = CE with leaves (rewrc (HYP ...) (ASM-PAT ...) L R (((HYP ...) PROP) ...))
   (natnorm ONE NEXP)       -> NEXP                       data/nat.py norm_full (see Model.lean)
   (intsimp IEXP) / (intnorm IEXP) -> IEXP               simp_full / int_norm_conv (IntModel.lean)
   (isnfishape IEXP)        -> T | F                      the normal-form shape of simp_full (isNFI)
@@ -149,6 +152,46 @@ partial def iexpTo : IExp → Sexp
   | .neg a => .list [.atom "neg", iexpTo a]
   | .pow b e => .list [.atom "pow", iexpTo b, Sexp.ofNat e]
 
+/-! combinators with hypotheses -/
+open Holpy.C10.H in
+partial def cehOf : Sexp → Option CEH
+  | .atom "all" => some .all
+  | .atom "no" => some .no
+  | .list [.atom "rewrc", .list hs, .list asms, l, r, .list conds] => do
+    let hs ← hs.mapM termOf
+    let asms ← asms.mapM patOf
+    let conds ← conds.mapM fun c =>
+      match c with
+      | .list [.list ch, p] => do some ({ hyps := (← ch.mapM termOf), prop := (← termOf p) } : Cond)
+      | _ => none
+    some (.rewr { hyps := hs, asms := asms, lhs := (← patOf l), rhs := (← patOf r) } conds)
+  | .list [.atom "then", a, b] => do some (.thenC (← cehOf a) (← cehOf b))
+  | .list [.atom "else", a, b] => do some (.elseC (← cehOf a) (← cehOf b))
+  | .list [.atom "try", a] => do some (.tryC (← cehOf a))
+  | .list [.atom "comb", a, b] => do some (.comb (← cehOf a) (← cehOf b))
+  | .list [.atom "comb1", a] => do some (.comb1 (← cehOf a))
+  | .list [.atom "arg", a] => do some (.arg (← cehOf a))
+  | .list [.atom "fun", a] => do some (.fn (← cehOf a))
+  | .list [.atom "arg1", a] => do some (.arg1 (← cehOf a))
+  | .list [.atom "binop", a] => do some (.binop (← cehOf a))
+  | .list [.atom "abs", a] => do some (.absC (← cehOf a))
+  | .list [.atom "sub", a] => do some (.sub (← cehOf a))
+  | .list [.atom "repeat", a] => do some (.rep (← cehOf a))
+  | .list [.atom "bottom", a] => do some (.bottom (← cehOf a))
+  | .list [.atom "topsweep", a] => do some (.topSweep (← cehOf a))
+  | .list (.atom "top" :: cs) => do
+    let cs ← cs.mapM cehOf
+    some (.top (every (cs.map .tryC)))
+  | .list (.atom "every" :: cs) => do
+    let cs ← cs.mapM cehOf
+    some (every cs)
+  | _ => none
+where
+  every : List CEH → CEH
+    | [] => .all
+    | [c] => c
+    | c :: cs => .thenC c (every cs)
+
 def errTo : Err → String
   | .conv => "conv"
   | .invalid => "invalid"
@@ -166,6 +209,13 @@ def handle (line : String) : String :=
     | some n, some ce, some t =>
       match interp n ce t with
       | .ok (l, r) => toString (Sexp.list [.atom "ok", termTo l, termTo r])
+      | .error e => toString (Sexp.list [.atom "err", .atom (errTo e)])
+    | _, _, _ => "bad-op"
+  | some (.list [.atom "convh", fuel, ce, t]) =>
+    match fuel.toNat?, cehOf ce, termOf t with
+    | some n, some ce, some t =>
+      match Holpy.C10.H.interpH n ce t with
+      | .ok s => toString (Sexp.list [.atom "ok", .list (s.hyps.map termTo), termTo s.lhs, termTo s.rhs])
       | .error e => toString (Sexp.list [.atom "err", .atom (errTo e)])
     | _, _, _ => "bad-op"
   | some (.list [.atom "intsimp", e]) =>
